@@ -16,6 +16,7 @@
 -/
 import Golib.Wire.Counter
 import Golib.Wire.Steps
+import Golib.Wire.Route
 import Golib.Gen.C05
 
 set_option linter.unusedSimpArgs false
@@ -474,4 +475,29 @@ theorem hash64Str_is_hash64_of_bytes : Gen.C05.hash64StrBody = "Hash64([]byte(_L
 
 example : goHash64 Gen.C05.hash64Init Gen.C05.hash64Step Gen.C05.hash64Final Gen.C05.hash64Ret (ascii "abcdefg")
     = 3463164852 := by decide +kernel
+/-! ### the send routes (queue mode): every statement of `Send` / `SendFlush`, interpreted (Golib.Wire.Route) -/
+
+/-- **`SendFlush` in queue mode only enqueues** — for every client state, caller object and per-send license the
+    regenerated statements of `SendFlush` mean the model's `send` step: a `TcpSend` carrying the caller's pack
+    pointer, flush flag and options goes on the client's queue; there is no other statement (no call on the pack,
+    no assignment through it): the pack reaches `makeData` as the caller handed it over. -/
+theorem sendFlush_queue_branch_only_enqueues {σ : Type} (enc : Bytes → σ → Bytes) (after : σ → σ)
+    (c : Queue.Client σ) (ref : Nat) (lic : Bytes) :
+    sendFlushMeaning enc after true ref lic c Gen.C05.route_SendFlush = .enqueued (Queue.step enc after c (.send ref lic)) := by
+  simp [Gen.C05.route_SendFlush, sendFlushMeaning, fieldOf]
+
+/-- … and otherwise hands the same pack and the same options to `sendDirect` -/
+theorem sendFlush_direct_branch {σ : Type} (enc : Bytes → σ → Bytes) (after : σ → σ)
+    (c : Queue.Client σ) (ref : Nat) (lic : Bytes) :
+    sendFlushMeaning enc after false ref lic c Gen.C05.route_SendFlush = .direct "_L1" "_L3..." := by
+  simp [Gen.C05.route_SendFlush, sendFlushMeaning]
+
+/-- `Send(p, opts...)` is `SendFlush(p, false, opts...)` -/
+theorem send_is_sendFlush :
+    (delegateMeaning Gen.C05.route_Send : RouteOutcome Unit) = .delegated "_L0.SendFlush" ["_L1", "false", "_L2..."] := by
+  simp [Gen.C05.route_Send, delegateMeaning]
+
+example : (sendFlushMeaning (fun _ (_ : Nat) => []) id true 3 [97] (Queue.Client.fresh [] (fun _ => 0)) Gen.C05.route_SendFlush
+    matches .enqueued ⟨[], _, [⟨3, [97]⟩], []⟩) = true := by
+  simp [Gen.C05.route_SendFlush, sendFlushMeaning, fieldOf, Queue.step, Queue.Client.fresh]
 end C05Gen
